@@ -2,6 +2,7 @@
  *   build:  MMPut*Field + MMFlattenMessage produce exactly the reference bytes, MMGetFlattenedSize the reference size;
  *   parse:  MMUnflattenMessage on the reference bytes yields exactly the values, and re-flattening reproduces the bytes. */
 #include "vc.h"
+#include "valloc_impl.h"
 #include "wlv.h"
 #include "lang/c/minimessage/MiniMessage.h"
 #define BUFCAP 160
@@ -99,7 +100,7 @@ void harness_mm_build(void)
    MMessage * m = build(0, V);
    const uint32 sz = MMGetFlattenedSize(m);
    CHECK(sz == wl_full(), "MMGetFlattenedSize equals the reference size");
-   unsigned char * out = (unsigned char *) malloc(wl_full()); ASSUME(out != 0);
+   unsigned char * out = (unsigned char *) verif_raw_malloc(wl_full()); ASSUME(out != 0);
    if (sz == wl_full()) { MMFlattenMessage(m, out); for (unsigned i = 0; i < wl_full(); i++) { CHECK(out[i] == ref[i], "byte equals the reference encoding"); verif_observe(out[i]); } }
    VERIF_REACHED();
 }
@@ -108,14 +109,14 @@ void harness_mm_parse_ref(void)
    unsigned char V[WL_MAXVALS]; const unsigned nv = wl_nvals();
    for (unsigned i = 0; i < nv; i++) V[i] = nondet_u8();
    const unsigned T = wl_total();
-   unsigned char * buf = (unsigned char *) malloc(T); ASSUME(buf != 0);
+   unsigned char * buf = (unsigned char *) verif_raw_malloc(T); ASSUME(buf != 0);
    wl_encode(V, buf);
    MMessage * m = MMAllocMessage(0); ASSUME(m != 0);
    CHECK(MMUnflattenMessage(m, buf, T) == CB_NO_ERROR, "reference bytes accepted");
    check_parsed(m, 0, V);
    const uint32 sz = MMGetFlattenedSize(m);
    CHECK(sz == T, "re-flattened size equals the input size");
-   unsigned char * out = (unsigned char *) malloc(T); ASSUME(out != 0);
+   unsigned char * out = (unsigned char *) verif_raw_malloc(T); ASSUME(out != 0);
    if (sz == T) { MMFlattenMessage(m, out); for (unsigned i = 0; i < T; i++) CHECK(out[i] == buf[i], "re-flattened byte equals the input"); }
    VERIF_REACHED();
 }
